@@ -79,9 +79,21 @@ def mutate(rng, text):
     return text + rng.choice(ALPHABET)
 
 
+# the non-standard `#<index>` / `#<name>` tokens with every kind of digit-like text after the sign
+HASH_TOKENS = ["#²", "#①", "#1¹", "#٣", "#１", "#-1", "#+1", "#1_0", "# 1", "#1 ", "#01", "#", "##", "#-", "#1e1", "#½", "#৩", "#0x1", "#1.0",
+               "~²", "~1", "~0²"]
+
+
 def gen(rng, tier):
     thorough = tier == "thorough"
     n = 20000 if thorough else 2500
+    for tok in HASH_TOKENS:
+        for doc in ([1, 2, 3], {"a": [1, 2]}, {"1": 1, "²": 2}, [[1], {"²": 1}]):
+            for pre in ("", "/a", "/0", "/1"):
+                yield {"kind": "ptr", "mode": True, "text": pre + "/" + tok, "doc": doc, "default": 7, "has_default": tok in ("#²", "#1")}
+        yield {"kind": "patch", "mode": True, "ops": [["test", "/a/" + tok, 1], ["remove", "/a/" + tok]], "doc": {"a": [1, 2]}}
+        yield {"kind": "patch", "mode": True, "ops": [["copy", "/a/" + tok, "/b"]], "doc": {"a": [1, 2]}}
+        yield {"kind": "patch", "mode": True, "ops": [["replace", "/" + tok, 1]], "doc": [1, 2]}
     # (1) queries
     for i in range(n):
         r = rng.random()
@@ -133,7 +145,7 @@ def gen(rng, tier):
     # (2) pointers
     for i in range(n // 3):
         doc = rng.choice([d for d in SMALL_DOCS if not isinstance(d, str)])
-        toks = [rng.choice(C04.LOOKALIKES + ["\\", "\\u0041", "\\x", "a\\/b", "%41", "~", "~2"]) for _ in range(rng.randint(0, 3))]
+        toks = [rng.choice(C04.LOOKALIKES + ["\\", "\\u0041", "\\x", "a\\/b", "%41", "~", "~2"] + HASH_TOKENS) for _ in range(rng.randint(0, 3))]
         text = "".join("/" + t for t in toks)
         if rng.random() < 0.3:
             text = mutate(rng, text)
